@@ -18,6 +18,9 @@ Keys 32 bytes lowercase hex; `-` = none / empty list.
 * `<state>` = `ops=<I:key:pn,U:pos:pn,K:start:end:sum,…> g=<first key:len|->/<prefix_len>/<sum>/<prefix_compressed|->/<n> v=<valid_gauge> low=<n|-> cut=<cutoff>`
 * `stage <separator@id,…|-> <key:pn,key:-,…>` — the whole real stage (`branch_stage::run`, one worker) on the index of the
   given nodes: `out=<separator|o<bbn> or separator|n|pl|pc|items;…> freed=<pn,…>`
+* `mstage <workers> <separator@id,…> <changes>` — the whole real stage with 2…4 branch workers (`prepare_workers`, the
+  range-extension protocol, `filter_branch_changeset`): `content=<key:pn,…>` of the new level (the node boundaries may differ
+  from the one-worker run; the mirror answers with the content of its one-worker run)
 * a `digest` / `stage` that produces a node whose encoding needs more than BRANCH_NODE_BODY_SIZE bytes (separators and node
   pointers overlap in the page; the content of such a page is not defined): `overfull`, the updater is unusable afterwards
 * `firstleaf <j> <value length>` — whole-store scenario `vharness branchupd-firstleaf` (the first leaf is emptied, then a key
@@ -123,6 +126,17 @@ def branchupdStep (s : BuState) (line : String) : BuState × String :=
   | ["new", base, cutoff] =>
     match buBase s base, luOptKey cutoff with
     | some b, some c => ({ s with st := some (St.new b c) }, "ok")
+    | _, _ => (s, "bad-op")
+  | ["mstage", _, db, changes] =>
+    match buDb s db, buChanges changes with
+    | some db, some cs =>
+      match runWorker kfReal db cs with
+      | none => (s, "panic")
+      | some (out, _) =>
+        if out.any (fun o => match o with | .new p => decide (BODY < p.node.body) | .old _ => false) then (s, "overfull")
+        else
+          let kps := (out.flatMap fun o => o.items).map fun it => s!"{hexOfNatKey it.key}:{it.pn}"
+          (s, s!"content={if kps.isEmpty then "-" else ",".intercalate kps}")
     | _, _ => (s, "bad-op")
   | ["stage", db, changes] =>
     match buDb s db, buChanges changes with
